@@ -144,7 +144,18 @@ Definition ok_handlers : bool :=
   && no_error_exit shape_OutgoingTxBatchExecuted && Nat.ltb 0 (ntok "panic" shape_OutgoingTxBatchExecuted)
   && no_error_exit shape_SavePendingExecuteClaim.
 
+(* SendToFx with an IBC target (send_to_fx.go): deposit, conversion base coin -> voucher and the ICS-20 transfer all run on the
+   context ExecuteClaim was given, NO branch anywhere, every error is returned: a failed forward is not a tolerated failure —
+   the executeClaim transaction keeps nothing and the claim stays pending *)
+Definition ok_sendtofx : bool :=
+  block_in ["call:outer:BridgeTokenToBaseCoin"; "if(err){"; "return-err"; "}"; "if(fxTarget.IsIBC()){";
+            "call:outer:transferIBCHandler"; "return"; "}"] shape_SendToFxExecuted
+  && Nat.eqb (ntok "branch" shape_SendToFxExecuted) 0
+  && list_eqb shape_transferIBCHandler
+       ["call:outer:BaseCoinToIBCCoin"; "if(err){"; "return-err"; "}"; "if(err){"; "return-err"; "}";
+        "call:outer:Transfer"; "if(err){"; "return-err"; "}"; "return-err"].
+
 Definition source_shapes_ok : bool :=
-  ok_handlers &&
+  ok_handlers && ok_sendtofx &&
   ok_processAttestation && ok_TryAttestation && ok_BridgeCallHandler && ok_BridgeCallEvm && ok_refund && ok_ExecuteClaim
   && ok_gov && ok_mwOnRecv && ok_relayOnRecv && ok_ack_timeout && ok_coreRecv.
